@@ -163,12 +163,31 @@ def check(chk):
             bodyfn = m.func('%s._close' % cname)
             chk.judge('self._close()' in src(cl), 'C10.close', cl, '%s.close schedules _close' % cname, 'close no longer runs _close')
         found = False
-        for n in body_walk(bodyfn):
-            if isinstance(n, ast.If) and src(n.test) == 'not self.is_defunct':
-                for x in n.body:
-                    for c in ast.walk(x):
-                        if isinstance(c, ast.Call) and src(c.func) == 'self.error_all_requests' and c.args and 'ConnectionShutdown' in src(c.args[0]):
-                            found = True
+        gb = CFG(bodyfn)
+        flb = Flow(gb, 0, lambda n, c: c)
+        for nd in gb.stmt_nodes():
+            if nd.kind != 'stmt' or nd.ast is None:
+                continue
+            for c in walk_no_nested(nd.ast):
+                if isinstance(c, ast.Call) and src(c.func) == 'self.error_all_requests' and c.args and 'ConnectionShutdown' in src(c.args[0]):
+                    sts = list(flb.at(nd))
+                    if sts and all(fa.knows('self.is_defunct') is False for fa, _c in sts):
+                        found = True
+        if cname == 'EventletConnection':
+            # a green thread that closes its own connection (EOF in the read loop, error in the write loop -> defunct -> close) must not kill itself:
+            # kill() on the running green thread raises GreenletExit at once and the rest of close() / defunct() never runs
+            cur = [a.targets[0].id for a in body_walk(bodyfn) if isinstance(a, ast.Assign) and isinstance(a.targets[0], ast.Name)
+                   and isinstance(a.value, ast.Call) and src(a.value.func) == 'eventlet.getcurrent']
+            kills = [(nd, c) for nd in gb.stmt_nodes() if nd.kind == 'stmt' and nd.ast is not None for c in walk_no_nested(nd.ast)
+                     if isinstance(c, ast.Call) and isinstance(c.func, ast.Attribute) and c.func.attr == 'kill' and src(c.func.value).startswith('self._')]
+            if not kills:
+                raise AnalysisError('EventletConnection.close: watcher kill() calls not found')
+            for nd, c in kills:
+                w = src(c.func.value)
+                safe = bool(cur) and all(any(fa.knows('%s == %s' % (w, cv)) is False for cv in cur) for fa, _c in flb.at(nd))
+                chk.judge(safe, 'C10.close', c, 'EventletConnection.close: %s.kill() only when it is not the running green thread' % w,
+                          'close() kills the green thread it runs in (%s may be the current one): GreenletExit is raised inside close(), the socket stays open and '
+                          'error_all_requests never runs - pending requests of a connection that failed in its own I/O loop are never failed' % w)
         n_close += 1
         chk.judge(found, 'C10.close', bodyfn, '%s: not defunct => error_all_requests(ConnectionShutdown)' % cname,
                   'closing a live connection leaves its pending requests hanging')
